@@ -94,16 +94,14 @@ var BytesSliceFunc = function.New(&function.Spec{
 			)
 		}
 
-		end := offset + length
-
-		if end > len(*bufPtr) {
+		if length > len(*bufPtr)-offset { // (offset + length can overflow)
 			return cty.NilVal, fmt.Errorf(
 				"offset %d + length %d is greater than total buffer length %d",
 				offset, length, len(*bufPtr),
 			)
 		}
 
-		return BytesVal((*bufPtr)[offset:end]), nil
+		return BytesVal((*bufPtr)[offset : offset+length]), nil
 	},
 })
 
